@@ -33,7 +33,7 @@ func getOp(name, arg string) (plugintypes.Operator, error) {
 
 // C15: built-in operators decide exactly their documented predicates.
 func C15(run *vf.Run) {
-	run.Rule = "Operators.tla: direct executable definitions of @streq @contains @strmatch @beginsWith @endsWith @within, the numeric comparisons (decimal integers, anything else counts as 0), @pm (ASCII-case-insensitive substring of any phrase), @validateByteRange, @validateUrlEncoding, @validateUtf8Encoding and @ipMatch (CIDR membership over 10.0.0.0/24). Operators_MC evaluates every (operator, argument) pair of its table on every byte string over an alphabet (letters of both cases, space, %, digits, minus, a valid 2-byte UTF-8 sequence, 0xFF) up to MaxLen (phrase at the very end, value shorter than the shortest phrase, truncated %X, ranges touching 0 and 255 are in it by construction), checks model-level theorems and prints the truth table; the real operators (internal registry) are evaluated on every row; negation (leading '!') and TX.0-9 capture are checked through single-rule WAFs on a sample; @ipMatch is compared on all 256 addresses x 6 CIDR arguments plus IPv4-mapped IPv6 and malformed inputs against net.IPNet. Non-trivial = row on which at least one operator holds"
+	run.Rule = "Operators.tla: direct executable definitions of @streq @contains @strmatch @beginsWith @endsWith @within, the numeric comparisons (decimal integers, anything else counts as 0), @pm (ASCII-case-insensitive substring of any phrase), @validateByteRange, @validateUrlEncoding, @validateUtf8Encoding and @ipMatch (CIDR membership over 10.0.0.0/24). Operators_MC evaluates every (operator, argument) pair of its table on every byte string over an alphabet (letters of both cases, space, %, digits, minus, a valid 2-byte UTF-8 sequence, the three bytes of U+FFFD, 0xFF) up to MaxLen (phrase at the very end, value shorter than the shortest phrase, truncated %X, ranges touching 0 and 255 are in it by construction), checks model-level theorems and prints the truth table; the five numeric comparisons are also tabulated over decimal texts of any length (sign and magnitude comparison in the model: values at, next to and far beyond the 64-bit bounds, signs, leading zeros, trailing garbage; the corner where both texts lie beyond 64 bits is left open); the real operators (internal registry) are evaluated on every row; negation (leading '!') and TX.0-9 capture are checked through single-rule WAFs on a sample; @ipMatch is compared on all 256 addresses x 6 CIDR arguments plus IPv4-mapped IPv6 and malformed inputs against net.IPNet. Non-trivial = row on which at least one operator holds"
 	run.Exhaustive = true
 	run.Assume("@rx: RE2 semantics are Go's regexp (trusted base); its prefilter is C11")
 	maxLen := vf.Pick(run, 3, 4)
@@ -45,8 +45,16 @@ func C15(run *vf.Run) {
 	}
 	var rows []row
 	var cidr [][]bool
+	type wideRow struct {
+		Op    string    `json:"op"`
+		Arg   eng.Bytes `json:"arg"`
+		In    eng.Bytes `json:"in"`
+		Holds bool      `json:"holds"`
+		Open  bool      `json:"open"`
+	}
+	var wide []wideRow
 	var mu sync.Mutex
-	res, err := vf.RunTLC(vf.TLCOpts{Module: "Operators_MC", CfgText: fmt.Sprintf("SPECIFICATION Spec\nCONSTANTS\n  Alphabet = {97, 65, 98, 32, 37, 49, 45, 195, 169, 255, 50}\n  MaxLen = %d\nINVARIANTS ContainsReflexive EqIsGeAndLe FullRangeNeverViolated Emit\n", maxLen),
+	res, err := vf.RunTLC(vf.TLCOpts{Module: "Operators_MC", CfgText: fmt.Sprintf("SPECIFICATION Spec\nCONSTANTS\n  Alphabet = {97, 65, 98, 32, 37, 49, 45, 195, 169, 255, 50, 239, 191, 189}\n  MaxLen = %d\nINVARIANTS ContainsReflexive EqIsGeAndLe FullRangeNeverViolated WideAgreesWithNarrow WideTrichotomy Emit\n", maxLen),
 		Workers: 8, Timeout: vf.Pick(run, 10*time.Minute, 60*time.Minute),
 		OnOut: func(raw json.RawMessage) {
 			var probe map[string]json.RawMessage
@@ -57,6 +65,10 @@ func C15(run *vf.Run) {
 			defer mu.Unlock()
 			if c, ok := probe["cidr"]; ok {
 				_ = json.Unmarshal(c, &cidr)
+				return
+			}
+			if c, ok := probe["wide"]; ok {
+				_ = json.Unmarshal(c, &wide)
 				return
 			}
 			var r row
@@ -70,7 +82,7 @@ func C15(run *vf.Run) {
 	}
 	run.AddTLC(res)
 	run.Logf("Operators_MC: %s; %d rows", res.Describe(), len(rows))
-	if res.Violated != "" || !res.OK() || len(rows) == 0 || len(cidr) != 256 {
+	if res.Violated != "" || !res.OK() || len(rows) == 0 || len(cidr) != 256 || len(wide) == 0 {
 		run.Inconclusive("Operators_MC: TLC did not complete cleanly: %s (cidr rows %d)\n%s", res.Describe(), len(cidr), res.ErrorText)
 		return
 	}
@@ -150,6 +162,28 @@ func C15(run *vf.Run) {
 		if i%499 == 0 {
 			run.Sample(map[string]any{"input": string(r.In), "pairs": opPairs[:6], "specified_row_prefix": r.Row[:6]})
 		}
+	}
+	// numbers of any length: the five comparisons on long decimal texts (the model compares sign and magnitude)
+	for _, wr := range wide {
+		if wr.Open {
+			continue
+		}
+		o, err := getOp(wr.Op, string(wr.Arg))
+		if err != nil {
+			run.Inconclusive("operator @%s %q rejected: %v", wr.Op, string(wr.Arg), err)
+			return
+		}
+		got, p := eval(o, string(wr.In))
+		if p != "" {
+			report("panic", wr.Op, string(wr.Arg), wr.In, p)
+		} else if got != wr.Holds {
+			report("predicate-differs", wr.Op, string(wr.Arg), wr.In, fmt.Sprintf("the operator returned %v; comparing the two integers gives %v", got, wr.Holds))
+		}
+		nt := ""
+		if wr.Holds {
+			nt = "wide-" + wr.Op + string(wr.Arg) + string(wr.In)
+		}
+		run.Eval(nt)
 	}
 	// @ipMatch: all addresses of 10.0.0.0/24 against the CIDR arguments; TLA+ table vs real operator vs net.IPNet
 	for k, a := range cidrArgs {
